@@ -128,6 +128,9 @@ Inductive case :=
 | KE2E (cfg : jcfg) (ftab ntab : list (bytes * outcome bytes)) (kvtab : list (bytes * bytes)) (reqs : list req)
        (acks : list bool) (wes : list (option (option wevent)))
        (reads : list (bytes * outcome (list revent))) (chunks : list (bytes * list N))
+(* histories with clean restarts: segments of requests, the server stopped and started between them and before the reads *)
+| KRestart (cfg : jcfg) (ftab ntab : list (bytes * outcome bytes)) (kvtab : list (bytes * bytes)) (segs : list (list req))
+       (acks : list bool) (reads : list (bytes * outcome (list revent)))
 (* concurrent writers on one partition: (writer, record) in journal order *)
 | KConc (cfg : jcfg) (batches : list (list levent)) (obs : list (nat * bytes)).
 
@@ -166,6 +169,13 @@ Definition check (c : case) : bool :=
           wes_ok (tab_lookup ntab) srv reqs res wes &&
           forallb (fun '(k, obs) => outcome_eqb (list_eqb revent_eqb) (read_back (kv_lookup kvtab) cfg srv k) obs) reads &&
           forallb (fun '(k, cs) => list_eqb N.eqb (filter (fun n => negb (N.eqb n 0)) (map chunk_count (srv_get srv k))) cs) chunks
+      | _ => false
+      end
+  | KRestart cfg ftab ntab kvtab segs acks reads =>
+      match run_segs (tab_lookup ftab) (tab_lookup ntab) (hist_fuel (concat segs)) cfg [] segs with
+      | Ok (srv, res) =>
+          list_eqb Bool.eqb (map r_ack res) acks &&
+          forallb (fun '(k, obs) => outcome_eqb (list_eqb revent_eqb) (read_back (kv_lookup kvtab) cfg (restart srv) k) obs) reads
       | _ => false
       end
   | KConc cfg batches obs => validate_trace (S (length obs)) cfg (cinit [] batches) obs
